@@ -2,6 +2,7 @@
 import re
 from cxxast import ExtractionError, get_class
 
+TPARAM_DEFAULTS = {'MatType': 'MatrixType'}
 MAXV = 12   # maximum coefficient count modelled for PPolyND's per-order caches (property C03 states 1..12)
 
 SCALAR_INT = {'int', 'long', 'size_t', 'std::size_t', 'unsigned long', 'unsigned int', 'unsigned', 'long long',
@@ -217,4 +218,7 @@ def _resolve_core(s, tenv):
         return TD('obj', cls=s, cfg={})
     if s == 'Deriv':
         return TD('enum', name='Deriv')
+    if s in TPARAM_DEFAULTS and tenv.cls is not None and TPARAM_DEFAULTS[s] in tenv.cls.aliases:
+        # template type parameter of a member function template, instantiated by its only call sites with this alias
+        return resolve(TPARAM_DEFAULTS[s], tenv)
     raise ExtractionError('no rule for type %r (class %s)' % (s, tenv.cls.name if tenv.cls else '?'))
